@@ -192,6 +192,25 @@ CLAIMED = {
              "C06-arc-d-6digits (6-digit arc radii in d()).",
         technique="Lean 4 proof (decision table, structural/list induction, field algebra) + differential correspondence + specification-path oracle",
         ref="DESIGN.md §4 C06"),
+    "C19": dict(
+        text="Lean 4 theorems, for every arc, every slice count and paths of every length (induction), over any scalar type and any "
+             "cos/sin: the loops of as_cubic_curves/as_quad_curves (Model/ArcBezier) return exactly n curves of the right kind, the "
+             "first starting at the arc's start, each next starting exactly at its predecessor's end, the last ending exactly at the "
+             "arc's end; an arc of zero extent yields nothing whatever count is asked, a zero-radius arc the one straight curve, and "
+             "the chain is empty only for zero extent or count 0. Over any field: every interior slice is the image, under the affine "
+             "map L taking the unit circle to the arc's ellipse, of the corresponding unit-circle slice (cubic and quadratic control "
+             "points, and every curve point), and L is max(rx,ry)-Lipschitz, so the distance from the ellipse relative to the larger "
+             "radius is at most the unit-circle error of one slice. Splice: on an exactly connected path not beginning with an arc, "
+             "the backwards replace-and-revalidate loop of approximate_arcs_with_* (slice assignment -> validate_connections) returns "
+             "exactly the original list with each arc expanded in place: all other segments untouched, result exactly connected. "
+             "Model compared curve-for-curve with the code (default and explicit counts, both kinds, whole paths); chain shape, "
+             "ellipse distance bounds 1e-3/1e-2, refinement monotonicity and path integrity evaluated on the implementation.",
+        note="Partial: the numeric size of the unit-circle error of one slice (<= 30 degrees) is measured by the oracle, not proved; "
+             "get_start_t (KL) by correspondence. Known finding C19-moveless-close (fragment beginning with an arc: its close is "
+             "re-targeted) - exactly the case the splice theorem excludes. Two fix: commits (zero-radius arc vanished; explicit count "
+             "on a zero-extent arc).",
+        technique="Lean 4 proof (induction over the slice loop and over the path; ring over a field; ordered-field Lipschitz bound) + differential correspondence + geometric oracle on the implementation",
+        ref="DESIGN.md §4 C19"),
 }
 ALL = ["C%02d" % i for i in range(1, 21)]
 
